@@ -184,7 +184,15 @@ impl Kernel {
 
     /// poll every flagged actor (in fixed order) until none is flagged; returns number of polls
     pub fn settle(&mut self) -> u64 {
-        let _g = self.rt.enter();
+        // Poll inside `block_on` (not merely `enter`): only entering the runtime this way installs
+        // the runtime's seeded random number generator, which `tokio::select!` uses to pick among
+        // branches that are ready at the same time.  Under a bare `enter` the choice came from a
+        // randomly seeded thread-local generator and replays could diverge.
+        let h = self.rt.handle().clone();
+        h.block_on(async { self.settle_inner() })
+    }
+
+    fn settle_inner(&mut self) -> u64 {
         let mut polls = 0u64;
         loop {
             let mut progressed = false;
